@@ -43,7 +43,7 @@ InitState == [side |-> "client", sc |-> 0, last |-> "Init", now |-> 0,
   \* connection
   ehdr |-> FALSE, eframes |-> 0, eopens |-> 0, ecloses |-> 0, ecloseErr |-> FALSE, eeof |-> FALSE,
   phdr |-> "none", popen |-> FALSE, pclose |-> FALSE, pcloseErr |-> "", pcloseHeard |-> FALSE, peof |-> FALSE, illegal |-> FALSE, garbage |-> FALSE,
-  oblClose |-> FALSE, openRet |-> "none", closeRet |-> "none",
+  oblClose |-> FALSE, openRet |-> "none", closeRet |-> "none", hook |-> FALSE,
   emfs |-> 512, pmfs |-> 512, echmax |-> 65535, pchmax |-> 65535, eidle |-> -1, pidle |-> -1, lastE |-> 0, lastP |-> 0, openAt |-> -1,
   ss |-> <<>>, ls |-> <<>>]
 
@@ -160,8 +160,9 @@ H_EFlow(s, r, l) ==
   IF k = 0 THEN R(s, fs + Fail("C13_NothingAfterDetach", l, "flow")) ELSE
   LET y == s.ls[k] IN
   IF y.eutSender
-  THEN LET drained == y.drainOwed /\ f.lc = 0 /\ f.dc = y.limit
-           y2 == [y EXCEPT !.drainOwed = IF drained THEN FALSE ELSE @, !.dcS = IF drained THEN y.limit ELSE @, !.echoOwed = FALSE]
+  THEN LET \* drain: the sender advances its delivery-count to the limit (if it is not already there or beyond) and shows zero credit
+           drained == y.drainOwed /\ f.lc = 0 /\ f.dc = Max(y.dcS, y.limit)
+           y2 == [y EXCEPT !.drainOwed = IF drained THEN FALSE ELSE @, !.dcS = IF drained THEN Max(y.dcS, y.limit) ELSE @, !.echoOwed = FALSE]
        IN R(SetL(s, k, y2), fs + Chk("C08_OnePerDelivery", f.dc = y.dcS \/ drained, l, ""))
   ELSE R(SetL(s, k, [y EXCEPT !.lcR = f.lc]), fs + Chk("C09_FlowCount", f.dc = y.dcR, l, ""))
 
@@ -298,7 +299,7 @@ Stuck(s, k) ==
      ELSE IF ~winStrict THEN "window" ELSE "credit"
 
 H_Quiesce(s, r, l) ==
-  LET up == ConnUp(s)
+  LET up == ConnUp(s) /\ ~s.hook          \* a task parked at an armed schedule point is not expected to make progress
       stuck == {k \in DOMAIN s.ls : up /\ Stuck(s, k) \in {"stuck", "stuck_dev_closed"}}
       ls2 == [k \in DOMAIN s.ls |-> IF up /\ Stuck(s, k) \in {"window", "credit"} THEN [s.ls[k] EXCEPT !.blockedBy = Stuck(s, k)] ELSE s.ls[k]]
       fStuck == IF stuck = {} THEN 0 ELSE
@@ -338,6 +339,7 @@ Step(s, r, l) ==
       [] r.ev = "ApiCall" -> H_ApiCall(s, r, l)
       [] r.ev = "ApiRet" -> H_ApiRet(s, r, l)
       [] r.ev = "Quiesce" -> H_Quiesce(s, r, l)
+      [] r.ev = "Hook" -> R([s EXCEPT !.hook = (r.op = "arm")], 0)
       [] OTHER -> R(s, 0)
   IN R([res.s EXCEPT !.last = r.ev, !.now = r.t], res.f)
 =============================================================================
